@@ -856,6 +856,7 @@ def _ox_merge(lo, hi):
 
 
 _OX_TKEY = re.compile(r"\{([^{}]+)\}")
+_OX_ABSENT_END = object()
 
 
 def _ox_template(v, o, keys, depth=0):
@@ -2646,8 +2647,9 @@ def oform_rows():
     reading, the row meets the situations its `way` names; `oform_cases` checks that on every run."""
     rows = []
 
-    def row(way, id_, ox, evals, reg=None, nofp=None):
-        rows.append({"id": id_, "way": way, "ox": ox, "evals": evals, "reg": REG if reg is None else reg, "nofp": nofp})
+    def row(way, id_, ox, evals, reg=None, nofp=None, same_a=False):
+        rows.append({"id": id_, "way": way, "ox": ox, "evals": evals, "reg": REG if reg is None else reg, "nofp": nofp,
+                     "same_a": same_a})
 
     def opt(key="ENGINE", **spec):
         return ["opt", key, spec]
@@ -2770,6 +2772,29 @@ def oform_rows():
         std + tpl + [{"OTHER": "slow"}, {"OTHER": 1}, {"OTHER": "auto", "A": 1}], treg + ["1"])
     row("templated value", "Option(K, '{OTHER}', domain=list)", opt(default={"d": "{OTHER}"}, domain=["cont", "list", DOM]),
         std + tpl + [{"OTHER": "slow"}, {"OTHER": "auto"}, {"OTHER": "bogus", "A": 1}], treg)
+    # -- reference chains: the option that finally decides the dispatch value sits three references away
+    def chain(end, **more):
+        d = {"ENGINE": "{OTHER}", "OTHER": "{P.Q}", "P": {"Q": "{LAST}"}}
+        if end is not _OX_ABSENT_END:
+            d["LAST"] = end
+        d.update(more)
+        return d
+    chains = [chain("fast"), chain("slow"), chain("fast"), chain("exact"), chain(_OX_ABSENT_END), chain("bogus"),
+              chain("auto", A=1), chain("slow")]
+    row("templated chain", "dispatch='K'  [K -> OTHER -> P.Q -> LAST]", ["str", "ENGINE"], std + chains, treg)
+    row("templated chain", "Option(K)  [K -> OTHER -> P.Q -> LAST]", opt(), std + chains, treg)
+    row("templated chain", "Option(K, 'auto', domain=list)  [K -> OTHER -> P.Q -> LAST]",
+        opt(default=D, domain=["cont", "list", DOM]), std + chains, treg)
+    dchains = [{k_: v_ for k_, v_ in c_.items() if k_ != "ENGINE"} for c_ in chains]
+    det = [chain("fast"), chain("slow"), chain("exact"), chain("bogus"), chain("fast"), chain("x-fast")]
+    row("templated chain", "dispatch='K'  [K -> OTHER -> P.Q -> LAST; the dictionaries differ in LAST only]",
+        ["str", "ENGINE"], det, treg, same_a=True)
+    row("templated chain", "Option(K)  [K -> OTHER -> P.Q -> LAST; the dictionaries differ in LAST only]", opt(), det, treg,
+        same_a=True)
+    row("templated chain", "Option(K, '{OTHER}')  [the default starts the chain; the dictionaries differ in LAST only]",
+        opt(default={"d": "{OTHER}"}), [{k_: v_ for k_, v_ in c_.items() if k_ != "ENGINE"} for c_ in det], treg, same_a=True)
+    row("templated chain", "Option(K, '{OTHER}')  [the default starts the chain]", opt(default={"d": "{OTHER}"}),
+        std + dchains + chains, treg)
     # -- dotted keys
     dot = [{}, {"S": {}}, {"S": {"ENGINE": "fast"}}, {"S": {"ENGINE": "slow"}}, {"S": {"ENGINE": "bogus"}}, {"S": {"ENGINE": "auto"}, "A": 1},
            {"S": {"OTHER": "fast"}}, {"S": {"ENGINE": None}}, {"ENGINE": "fast"}, {"S": {"ENGINE": "{S.OTHER}", "OTHER": "exact"}}]
@@ -2901,7 +2926,9 @@ def oform_case(row, thorough, salt=0):
     # dictionaries differ whatever the dispatch read (known finding F19 -- the keys read by a dispatch that then
     # FAILS are not in the fingerprint -- would otherwise let {K: <outside the domain>} reproduce the entry
     # stored under {}; that is recorded by `oform_probe`, outside the violation oracle)
-    evals = [dict(o, A=10 + n) for n, o in enumerate(row["evals"])]
+    # (a `same_a` row holds only dictionaries under which the dispatch is determinable, and gives them ONE value of A:
+    #  they differ in nothing but what the dispatch reads, possibly several references away, on one cache)
+    evals = [dict(o, A=10 + (0 if row.get("same_a") else n)) for n, o in enumerate(row["evals"])]
     for n, o in enumerate(evals):
         # (quick: both datasets and one interface member in turn; thorough: everything)
         ops += [["eval", d, o] for d in (range(nd) if thorough else (0, 1, 2 + (n + salt) % 3))]
